@@ -167,7 +167,7 @@ def build_api(spec):
     if spec.get('snooze') is not None:
         comp.X_MOZ_SNOOZE_TIME = mk_value(('utc', spec['snooze']))
     if spec.get('othermoz'):
-        comp.add('X-MOZ-GENERATION', '1')
+        comp.add(MOZ_NAMES[spec_hash(spec) % len(MOZ_NAMES)], '1')
     for a in spec['alarms']:
         al = Alarm()
         t = a.get('trigger')
@@ -185,7 +185,24 @@ def build_api(spec):
     return comp
 
 
+MOZ_NAMES = ['X-MOZ-GENERATION', 'X-MOZ-SEND-INVITATIONS', 'X-MOZ-SNOOZE-TIME-1601775000000000', 'X-MOZ-FAKED-MASTER',
+             'x-moz-received-sequence']
+
+
+def spec_hash(spec):
+    """a stable number derived from the case itself (selects spellings that must not matter)"""
+    import zlib
+    return zlib.crc32(repr(sorted((k, repr(v)) for k, v in spec.items())).encode())
+
+
+def spell(name, h):
+    """property names are case-insensitive (RFC 5545 2.3): the same case in another spelling"""
+    return [name, name, name.lower(), name.capitalize()][h % 4]
+
+
 def build_text(spec):
+    h = spec_hash(spec)
+    fmt_value = lambda name, v, _f=globals()['fmt_value']: _f(spell(name, h), v)   # noqa: E731
     lines = ['BEGIN:' + spec['kind']]
     if spec.get('dtstamp') is not None:
         lines.append('DTSTAMP:%sZ' % fmt_dt(spec['dtstamp']))
@@ -202,7 +219,7 @@ def build_text(spec):
     if spec.get('snooze') is not None:
         lines.append('X-MOZ-SNOOZE-TIME:%sZ' % fmt_dt(spec['snooze']))
     if spec.get('othermoz'):
-        lines.append('X-MOZ-GENERATION:1')
+        lines.append(MOZ_NAMES[h % len(MOZ_NAMES)] + ':1')
     for a in spec['alarms']:
         lines.append('BEGIN:VALARM')
         lines.append('ACTION:DISPLAY')
